@@ -44,17 +44,37 @@ def extra_values(rnd, n):
 
 
 def stub_counts(impl):
+    """fields per generated TypedDict: a required-only / optional-only TypedDict is one class; one with both is a base
+    class immediately followed by its `...NonTotal(<base>, total=False)` subclass, counted together.  Classes are
+    paired by position and by the base named in the header, never merged by name (two different TypedDicts can be
+    given the same generated name: C11's finding kf_hint_collision)."""
     from monkeytype.stubs import ReplaceTypedDictsWithStubs
     _, stubs = ReplaceTypedDictsWithStubs.rewrite_and_get_stubs(impl, "foo")
-    by_name = {}
+    entries = []          # [name, fields, has_nontotal_partner]
+    counts_bad = 0
     for s in stubs:
-        m = re.match(r"^(\w+?)(NonTotal)?\((\w+)(, total=False)?\)$", s.name)
+        m = re.match(r"^(\w+)\((\w+)(, total=False)?\)$", s.name)
         if not m:
-            by_name[s.name] = by_name.get(s.name, 0) + 10 ** 6   # unparseable header: fail closed
+            counts_bad += 1           # unparseable header: fail closed
             continue
-        base = m.group(1)
-        by_name[base] = by_name.get(base, 0) + len(list(s.attribute_stubs))
-    return list(by_name.values())
+        name, base, nontotal = m.group(1), m.group(2), bool(m.group(3))
+        n = len(list(s.attribute_stubs))
+        if base == "TypedDict":
+            entries.append([name, n, nontotal])      # an optional-only TypedDict takes no partner
+        elif nontotal:
+            # the `...NonTotal(<base>, total=False)` half of a TypedDict with required and optional keys: counted with
+            # the most recent still unpartnered class of that name (nested class stubs may sit in between)
+            for e in reversed(entries):
+                if e[0] == base and not e[2]:
+                    e[1] += n
+                    e[2] = True
+                    break
+            else:
+                counts_bad += 1
+        else:
+            counts_bad += 1
+    counts = [e[1] for e in entries] + [10 ** 6] * counts_bad
+    return counts
 
 
 def run(ctx):
